@@ -208,7 +208,7 @@ func Gen(prop string, r *sim.Rand, tier string) sim.Script {
 		switch k {
 		case 0:
 			n++
-			s.Ops = append(s.Ops, WOp{K: "upd", I: ki, V: genVal(r, n, small)})
+			s.Ops = append(s.Ops, WOp{K: "upd", I: ki, V: genVal(r, n, small), N: r.Intn(8)})
 		case 1:
 			s.Ops = append(s.Ops, WOp{K: "del", I: ki, N: r.Intn(2)})
 		case 2:
